@@ -206,7 +206,7 @@ LETTERS = 'abcdefghijklmnopqrstuvwxyzABCDEFGHIJKLMNOPQRSTUVWXYZ'
 NAME_EXTRA = '_0123456789'
 NONASCII_NAME = 'éÉüÜñÑλΛжЖ٣'          # all `\w`; lower() is character-wise for them
 STR_SPECIAL = ['"', '\\', ',', '=', "'", ' ', ':', '/', '.', '-', '%', '\t', '\r', '*', '+', '@', '[', ']', '#', '?', 'é', 'λ', '€',
-               '\u2028', '😀']
+               '\u2028', '😀', '{', '}', '{0}', '{name}', '%s', '%(x)s']
 NS_TYPES = ['http', 'https', 'cimxml-wbem', 'cimxml-wbems', 'wbem', 'x-y']
 
 
@@ -386,7 +386,7 @@ def variant(spec, rng):
 
 
 MUT_CHARS = ['"', '\\', ',', '=', "'", ':', '/', '.', '-', '+', ' ', '\n', 'e', 'E', 'x', 'X', 'b', 'B', '0', '1', '8', '9', 'a', 'F',
-             '*', '|', '_', 'é', '@', '[', '%', '\t']
+             '*', '|', '_', 'é', '@', '[', '%', '\t', '{', '}', '{0}', '{}', '%s', '{{', '}}']
 
 
 def mutate(text, rng):
@@ -403,7 +403,7 @@ def mutate(text, rng):
     return text + rng.choice(MUT_CHARS)
 
 
-LIT_SEEDS = ['0', '7', '42', '-42', '+42', '007', '0777', '08', '101b', '101B', '-1b', '2b', 'b', '0x1F', '0X1f', '-0xABCDEF', '0x', '0xG',
+LIT_SEEDS = ['{name}', '{2}', '{0}', '%s', '%(x)s', '{{', '}}', '{0!r}', '\\\\', '0', '7', '42', '-42', '+42', '007', '0777', '08', '101b', '101B', '-1b', '2b', 'b', '0x1F', '0X1f', '-0xABCDEF', '0x', '0xG',
              '1.5', '.5', '5.', '-1.5e10', '1.5E-3', '1e5', '1.0e', '1.0e+', 'INF', '-inf', '+INF', 'NaN', 'nan', 'TRUE', 'false', 'True',
              'tRuE', '00', '-0', '+', '-', '', '1_0', '٣', '1٣', '0b', '0B1', '1.5.5', '1..5', 'e5', '.e5', '.5e+5',
              '20140924193040.654321+120', '20140924193040.654321-120', '20140924193040.654321|120', '00000183132542.234567:000',
@@ -422,9 +422,53 @@ def g_literal(rng):
     return s
 
 
+
+# texts that are hostile to message formatting (str.format fields, %-formats, backslashes): the parsers echo their input
+# in error messages, so a structurally valid URI whose *unquoted* key value (or any other component) is one of these must
+# still end in ValueError or a path, never KeyError / IndexError / TypeError from building the message
+HOSTILE = ['{name}', '{2}', '{0}', '{1}', '{}', '{0!r}', '{0!A}', '{0:>10}', '{a.b}', '{a[0]}', '{{', '}}', '{{x}}', '{', '}', '}{',
+           '%s', '%d', '%(x)s', '%', '%%', '%5', '\\', '\\\\', '\\{0}', '\\n', '\\x', '{name', 'name}', '{0}{1}{2}', '${x}', '#{x}',
+           '{\u00e9}', '{0[\u00e9]}', '{__class__}', '{0.__class__}']
+HOSTILE_HEADS = ['', '/', ':', '/:', 'root/cimv2:', '/root/cimv2:', '//acme.com/root/cimv2:', '//my-host:5989/root:', 'https://acme.com:5989/root/cimv2:',
+                 'http://[fe80::1]/n:', '//acme.com/:']
+
+
+def g_hostile(rng):
+    """structurally valid instance / class URI with one component replaced or extended by a format-hostile token"""
+    h = rng.choice(HOSTILE)
+    if rng.random() < 0.25:
+        h = h + rng.choice(HOSTILE)
+    head = rng.choice(HOSTILE_HEADS)
+    r = rng.random()
+    if r < 0.45:        # unquoted key value (the value text goes through the literal recognisers and into the error message)
+        kbs = ['Name=' + h]
+        if rng.random() < 0.4:
+            kbs.insert(rng.randrange(2), rng.choice(['k=1', 'b=TRUE', 's="x"', 'r=1.5', "c='a'"]))
+        if rng.random() < 0.2:
+            kbs.append('z=' + rng.choice(HOSTILE))
+        return head + 'CIM_Foo.' + ','.join(kbs)
+    if r < 0.60:        # inside a quoted value (escaped as to_wbem_uri would) and inside a nested reference
+        q = h.replace('\\', '\\\\').replace('"', '\\"')
+        if rng.random() < 0.5:
+            return head + 'CIM_Foo.Name="' + q + '"'
+        inner = ('/root:CIM_Bar.X=' + h).replace('\\', '\\\\').replace('"', '\\"')
+        return head + 'CIM_Foo.Ref="' + inner + '"'
+    if r < 0.70:        # single-quoted (char16) value
+        return head + "CIM_Foo.c='" + h + "'"
+    if r < 0.80:        # key name / class name / namespace / host / scheme position
+        return rng.choice([head + 'CIM_Foo.' + h + '=1', head + h + '.k=1', head + 'CIM_' + h,
+                           '/root/' + h + ':CIM_Foo.k=1', '//' + h + '/root:CIM_Foo.k=1', h + '://acme.com/root:CIM_Foo.k=1',
+                           '/root/' + h + ':CIM_Foo', '//' + h + '/root:CIM_Foo'])
+    if r < 0.90:        # class path forms
+        return head + rng.choice(['CIM_Foo', 'CIM_Foo' + h, h])
+    return h            # the bare token
+
+
 def g_text(rng, printed):
     """parser input: mutated printed URIs, scheme/authority forms, fragments"""
     r = rng.random()
+    if r < 0.12:
+        return g_hostile(rng)
     if r < 0.55 and printed:
         t = rng.choice(printed)
         for _ in range(rng.choice([1, 1, 1, 2, 3])):
@@ -810,7 +854,9 @@ def run(run):
                 'hyphens, userinfo; multi-level namespaces) x 4 formats, each with one case/key-order variant; exhaustive sweep of all '
                 'string key values of length <= 3 over the 10 grammar characters (thorough: every BMP character); class paths likewise; '
                 'parser texts = printed URIs with 1..3 single-character mutations, scheme/authority prefixes, literal near-misses, '
-                'hand-picked regex corner cases, random text; literal recognisers on near-miss literals; '
+                'hand-picked regex corner cases, random text, and (12 %) structurally valid URIs whose unquoted / quoted key value, key name, class, '
+                'namespace, host or scheme is a format-hostile token ({name}, {2}, {0!r}, %s, %(x)s, {{, }}, backslashes); '
+                'literal recognisers on near-miss literals; '
                 'a path case is non-trivial when it has >= 1 keybinding, a text case when one of the two parsers accepts it')
     run.assumptions += [
         'CPython float()/repr(float) are the trusted text<->double codec (model carries reals as text; compared by bit pattern)',
